@@ -34,6 +34,7 @@ type c16Case struct {
 	Shapes    []int  `json:"shapes"` // entry shape ids 0..99
 	Requested string `json:"requested"`
 	Transport string `json:"transport,omitempty"` // non-empty: end-to-end case through the SSO handler
+	Persist   string `json:"persist,omitempty"`   // end-to-end: the first CreateAuthRequest call fails this way
 }
 
 func c16Entry(shape, pos int) md.IndexedEndpointType {
@@ -143,7 +144,7 @@ func runC16(ctx Ctx) int {
 		}
 		if c.Transport != "" {
 			world.PinClock()
-			class, clause, labels, detail := c16E2EOne(c.Shapes, c.Requested, c.Transport)
+			class, clause, labels, detail := c16E2EOne(c.Shapes, c.Requested, c.Transport, c.Persist)
 			fmt.Printf("replay C16 end-to-end: %+v -> class=%s clause=%q labels=%v detail=%v\n", c, class, clause, labels, detail)
 			if clause != "" {
 				fmt.Printf("VIOLATION property=C16 replay=%s\n", ctx.Replay)
